@@ -4,6 +4,7 @@ pub mod c05;
 pub mod c06;
 pub mod c08;
 pub mod c11;
+pub mod c14;
 pub mod common;
 
 use crate::engine::Tier;
@@ -17,6 +18,7 @@ pub fn run(prop: &str, tier: Tier, seed: u64) -> i32 {
         "C06" => c06::run(tier, seed),
         "C08" => c08::run(tier, seed),
         "C11" => c11::run(tier, seed),
+        "C14" => c14::run(tier, seed),
         _ => {
             eprintln!("unknown property {prop}");
             2
@@ -40,6 +42,7 @@ pub fn replay(prop: &str, path: &str) -> i32 {
         "C06" => c06::replay(&doc),
         "C08" => c08::replay(&doc),
         "C11" => c11::replay(&doc),
+        "C14" => c14::replay(&doc),
         _ => 2,
     }
 }
